@@ -16,7 +16,7 @@ RULE = ("float16: every finite value of the stated domains; float32/float64: ran
         "and k*pi/2 for k across the whole reachable range, continued-fraction worst cases (floats d*2^e closest to multiples of ln2 resp. pi/2 in every binade), the "
         "|x| < pi/4 transition, the largest admissible |x|, subnormals and both signs. distinct_nontrivial = distinct (reduction, dtype, k, binade of x, generator class) tuples")
 ASSUME = ["mpmath's pi and ln2 at the working precision; exact float -> mpf conversion", "trigonometric domain |x| <= largest / 2^j with j = 2 (float16), 5 (float32), 18 (float64) as in the repository's own test"]
-REQUIRE = ["evaluations", "judged:exp", "judged:trig", "hard:cf-cases", "hard:neighbours"]
+REQUIRE = ["evaluations", "judged:exp", "judged:trig", "hard:cf-cases", "hard:neighbours", "hard:tie-band"]
 
 TRIG_J = {16: 2, 32: 5, 64: 18}
 TRIG_ULP = {16: 10, 32: 1, 64: 1}
@@ -182,6 +182,23 @@ def task_hard(params, rec):
     xs = exact.from_ordinal_arr(dt, exact.ordinal_arr(x0) + rng.integers(-8, 9, size=n))
     rec.count("hard:neighbours", n)
     run(rec, dt, xs, "pi/2-neighbour", which=("trig",))
+    # a band around the rounding ties of x/ln2 and x/(pi/2): the statement leaves 10 % slack above the half-way remainder (0.55 ln2, 1.1 pi/4), so a
+    # quotient estimate that is slightly off only shows when x/c is several hundredths away from the tie - far outside +-8 ulps, rare for random bits
+    nb = n
+    ks = rng.integers(-kmax, kmax + 1, size=nb)
+    # |k| large matters most (an error proportional to k): half of the band samples take k from the top quarter of the domain
+    top = rng.random(nb) < 0.5
+    ks = numpy.where(top, numpy.sign(ks + 0.5) * rng.integers(int(0.7 * kmax), kmax + 1, size=nb), ks).astype(int)
+    dl = numpy.where(rng.random(nb) < 0.5, rng.uniform(0, 0.12, size=nb), 2.0 ** rng.uniform(-40, -3, size=nb)) * numpy.where(rng.random(nb) < 0.5, 1, -1)
+    base = [(mp.mpf(int(k)) + mp.mpf(1) / 2 + mp.mpf(float(d))) * mp.ln2 for k, d in zip(ks, dl)]
+    xs = exact.from_ordinal_arr(dt, numpy.array([rn(b, f) for b in base]))
+    rec.count("hard:tie-band", nb)
+    run(rec, dt, xs, "ln2-tie-band", which=("exp",))
+    kq = [int(2.0 ** rng.uniform(-1, emax_k - 1)) + int(rng.integers(0, 4)) for _ in range(nb)]
+    base = [(mp.mpf(k) + mp.mpf(1) / 2 + mp.mpf(float(d))) * mp.pi / 2 * (1 if rng.random() < 0.5 else -1) for k, d in zip(kq, dl)]
+    xs = exact.from_ordinal_arr(dt, numpy.array([rn(b, f) for b in base]))
+    rec.count("hard:tie-band", nb)
+    run(rec, dt, xs, "pi/2-tie-band", which=("trig",))
     # pi/4 transition, domain edges, tiny/subnormal
     fi = numpy.finfo(dt)
     edges = gen.neighbours(numpy.array([math.pi / 4, math.pi / 2, lim_trig, lim_exp, float(fi.smallest_normal), float(fi.smallest_subnormal), 0.0, math.log(2) / 2, math.log(2)], dtype=dt), dt, k=8)
@@ -219,7 +236,7 @@ SHARD_TIMEOUT = {"quick": 1500, "thorough": 9000}
 
 def plan(tier, seed):
     t = [("f16", dict(shard=s, nshards=6)) for s in range(6)]
-    n, nsh = (700, 2) if tier == "quick" else (25000, 6)
+    n, nsh = (700, 4) if tier == "quick" else (25000, 6)
     for dtn in ("float32", "float64"):
         for s in range(nsh):
             t.append(("hard", dict(dtype=dtn, seed=seed, shard=s, n=n)))
